@@ -326,3 +326,24 @@ Proof.
   destruct (helper kinds (entry prev (fst r)) summ (snd r)) as [s1 h] eqn:Eh.
   rewrite (IH s1 Ht (helper_ids_positive _ _ _ _ _ _ Eh Hp)). reflexivity.
 Qed.
+
+(* ------------------------------------------------------------------ differential check of the translator
+
+   One recorded evaluation of a helper cell by the running engine: (kinds, cells read, summary rows before) and
+   (did it raise, returned ids, summary rows after); the generated formula must do the same. *)
+Fixpoint mrows_eqb (a b : list mrow) : bool :=
+  match a, b with
+  | [], [] => true
+  | x :: a', y :: b' => Z.eqb (fst x) (fst y) && key_eqb (snd x) (snd y) && mrows_eqb a' b'
+  | _, _ => false
+  end.
+
+Definition check_gen_helper
+  (c : (list kind * list cell * list mrow) * (bool * list Z * list mrow)) : bool :=
+  let '(kinds, cells, summ, (raised, ids, after)) := c in
+  match (if summary_simple kinds then gen_update_summary_simple false (combine kinds cells) summ
+         else gen_update_summary_list false (combine kinds cells) summ) with
+  | Ret (s', ids') => negb raised && mrows_eqb s' after && zs_eqb ids' ids
+  | Go _ => false
+  | _ => raised
+  end.
